@@ -57,6 +57,122 @@ Arguments OutOfFuel {A}.
 Inductive term := TNone | TPanic | TFatal | TCrash.
 Definition term_is_none (t : term) : bool := match t with TNone => true | _ => false end.
 
+
+(* ================= the core composition under the logger =================
+   The sugar hands its fields to whatever zapcore.Core the Logger holds.  That core is a stack
+   built by the history: New(observer), With (eager: core.With(fields), pushed down through every
+   wrapper to the observer), WithLazy (zapcore.NewLazyWith(core, fields): a lazyWithCore ON TOP of
+   the current stack, its With deferred), WithOptions(WrapCore(f)) (a wrapper on top).  An entry
+   reaches the observer by Logger.check -> core.Check (which registers cores with the CheckedEntry)
+   followed by ce.Write -> Write of every registered core.
+
+   wrappers (all leave Enabled alone):
+     WFwd     the textbook user core "embed zapcore.Core; Check: if Enabled { ce.AddCore(ent, self) };
+              Write: forward to the embedded core; With: wrap inner.With" (counting / auditing cores)
+     WDeleg   an embedding wrapper whose Check is the embedded core's (the inner core registers itself)
+     WTee     zapcore.NewTee(core, nop) / NewTee(nop, core): Check asks every member, Write writes to every member
+     WHook    zapcore.RegisterHooks: Check lets the inner core register, then registers itself; its
+              Write ONLY runs the hooks ("our downstream had a chance to register itself")
+     WFilter  zapcore.NewIncreaseLevelCore(core, the core's own enabler): Check delegates, Write is the embedded one
+
+   [write_w c fss fs] = c.With(fss_1)...With(fss_n).Write(ent, fs): the field lists that reach the observer;
+   [check_w c fss]    = the cores c.With(fss_1)...With(fss_n).Check registers, each with its pending Withs.
+   lazy_with.go: Check = { initOnce; d.core.Check }, Write = { initOnce; d.core.Write }, With = { initOnce;
+   d.core.With } where d.core = originalCore.With(fields) -- the clauses for [CLazy] below. *)
+Inductive wrapper := WFwd | WDeleg | WTee | WHook | WFilter.
+Definition wrapper_is_hook (w : wrapper) : bool := match w with WHook => true | _ => false end.
+Definition wrapper_is_fwd (w : wrapper) : bool := match w with WFwd => true | _ => false end.
+
+Section Cores.
+  Variable F : Type.
+
+  Inductive core :=
+  | CObs (ctx : list F)                       (* the observer, with the context given to it by With *)
+  | CLazy (inner : core) (fs : list F)        (* zapcore.NewLazyWith(inner, fs) *)
+  | CWrap (w : wrapper) (inner : core).
+
+  (* c.With(fss_1)...With(fss_n), n >= 1 *)
+  Fixpoint core_withs (c : core) (fss : list (list F)) : core :=
+    match c with
+    | CObs ctx => CObs (ctx ++ concat fss)
+    | CLazy inner f0 => core_withs inner (f0 :: fss)          (* initOnce: d.core = inner.With(f0); d.core.With(..) *)
+    | CWrap w inner => CWrap w (core_withs inner fss)
+    end.
+
+  Fixpoint write_w (c : core) (fss : list (list F)) (fs : list F) : list (list F) :=
+    match c with
+    | CObs ctx => [ctx ++ concat fss ++ fs]
+    | CLazy inner f0 => write_w inner (f0 :: fss) fs          (* initOnce; d.core.Write(e, fields) *)
+    | CWrap WHook _ => []                                       (* hooks only *)
+    | CWrap _ inner => write_w inner fss fs                     (* forwarded / embedded / every member (nop writes nothing) *)
+    end.
+
+  Fixpoint check_w (c : core) (fss : list (list F)) : list (core * list (list F)) :=
+    match c with
+    | CObs ctx => [(CObs ctx, fss)]                             (* ce.AddCore(ent, observer) *)
+    | CLazy inner f0 => check_w inner (f0 :: fss)               (* initOnce; d.core.Check(e, ce) *)
+    | CWrap WFwd inner => [(CWrap WFwd inner, fss)]             (* registers ITSELF *)
+    | CWrap WHook inner => check_w inner fss ++ [(CWrap WHook inner, fss)]
+    | CWrap _ inner => check_w inner fss
+    end.
+
+  (* Logger.check + ce.Write(fs...) at an enabled level: what the observer records *)
+  Definition deliver (c : core) (fs : list F) : list (list F) :=
+    concat (map (fun r => write_w (fst r) (snd r) fs) (check_w c [])).
+
+  (* the history of the core *)
+  Inductive cstep :=
+  | KWith (lazy : bool) (fs : list F)        (* Logger.With / Logger.WithLazy with already sweetened fields *)
+  | KWrap (w : wrapper).                     (* WithOptions(WrapCore(w)) *)
+  Fixpoint build (c : core) (ks : list cstep) : core :=
+    match ks with
+    | [] => c
+    | KWith true fs :: r => build (CLazy c fs) r
+    | KWith false fs :: r => build (core_withs c [fs]) r
+    | KWrap w :: r => build (CWrap w c) r
+    end.
+
+  (* the flat reading used by the rest of the model: the context is the concatenation of the With fields *)
+  Fixpoint flat (c : core) : list F :=
+    match c with
+    | CObs ctx => ctx
+    | CLazy inner f0 => flat inner ++ f0
+    | CWrap _ inner => flat inner
+    end.
+  Fixpoint ks_fields (ks : list cstep) : list F :=
+    match ks with
+    | [] => []
+    | KWith _ fs :: r => fs ++ ks_fields r
+    | KWrap _ :: r => ks_fields r
+    end.
+
+  (* the one composition zap itself does not support: a core whose Write is reached WITHOUT its Check
+     (a self-registering forwarder) above a hooked core, whose Write relies on the downstream having
+     registered itself.  [ok]: no forwarder has a hooked core anywhere below it. *)
+  Fixpoint hookfree (c : core) : bool :=
+    match c with
+    | CObs _ => true
+    | CLazy inner _ => hookfree inner
+    | CWrap w inner => negb (wrapper_is_hook w) && hookfree inner
+    end.
+  Fixpoint ok (c : core) : bool :=
+    match c with
+    | CObs _ => true
+    | CLazy inner _ => ok inner
+    | CWrap WFwd inner => hookfree inner
+    | CWrap _ inner => ok inner
+    end.
+  (* the same on the history: [h] = a hook has been installed already *)
+  Fixpoint ks_ok (h : bool) (ks : list cstep) : bool :=
+    match ks with
+    | [] => true
+    | KWith _ _ :: r => ks_ok h r
+    | KWrap w :: r => negb (wrapper_is_fwd w && h) && ks_ok (h || wrapper_is_hook w) r
+    end.
+End Cores.
+Arguments CObs {F}. Arguments CLazy {F}. Arguments CWrap {F}.
+Arguments KWith {F}. Arguments KWrap {F}.
+
 Section Sugar.
   Variables V F : Type.
   Variable as_field : V -> option F.            (* f, ok := args[i].(Field) *)
@@ -241,20 +357,22 @@ Section Sugar.
 
   (* a history before the logging call: With/WithLazy calls and changes of the core's enabler *)
   Inductive step :=
-  | SWith (args : list V)
-  | SSetEn (en : Z -> bool).
+  | SWith (lazy : bool) (args : list V)    (* With (false) / WithLazy (true) *)
+  | SSetEn (en : Z -> bool)
+  | SWrap (w : wrapper).                   (* WithOptions(WrapCore(w)): the core composition changes, the logger does not *)
 
   (* a program: a chain of With/WithLazy calls interleaved with enabler changes, then one logging call *)
   Fixpoint run (lg : logger) (steps : list step) (c : call) : list entry * term :=
     match steps with
     | [] => do_call lg c
-    | SWith a :: r =>
+    | SWith _ a :: r =>
         match swith lg a with
         | Done (lg', es) => let '(es', t) := run lg' r c in (es ++ es', t)
         | OutOfRange (_, es) => (es, TCrash)
         | OutOfFuel => ([], TCrash)
         end
     | SSetEn en :: r => run (set_en lg en) r c
+    | SWrap _ :: r => run lg r c            (* transparent: see C14_core_composition_transparent *)
     end.
 
   (* ================= specification (independent of the sweep) ================= *)
@@ -342,20 +460,31 @@ Section Sugar.
   Fixpoint spec_withs (lg : logger) (steps : list step) : logger * list entry :=
     match steps with
     | [] => (lg, [])
-    | SWith a :: r =>
+    | SWith _ a :: r =>
         let '(fs, cs) := spec_sweeten a in
         let '(lg', es) := spec_withs {| lg_ctx := lg_ctx lg ++ fs; lg_en := lg_en lg; lg_dev := lg_dev lg |} r in
         (lg', spec_diag_entries lg cs ++ es)
     | SSetEn en :: r =>
         spec_withs {| lg_ctx := lg_ctx lg; lg_en := en; lg_dev := lg_dev lg |} r
+    | SWrap _ :: r => spec_withs lg r      (* the delivered context does not depend on the core composition *)
+    end.
+
+  (* the history of the CORE under the logger: the sweetened fields of every With/WithLazy, the wrappers *)
+  Fixpoint ksteps_of (steps : list step) : list (cstep F) :=
+    match steps with
+    | [] => []
+    | SWith lz a :: r => KWith lz (fields_of (items 0 false a)) :: ksteps_of r
+    | SSetEn _ :: r => ksteps_of r
+    | SWrap w :: r => KWrap w :: ksteps_of r
     end.
 
   (* the enabler in force when the logging call is made: the last change, if any *)
   Fixpoint final_en (en : Z -> bool) (steps : list step) : Z -> bool :=
     match steps with
     | [] => en
-    | SWith _ :: r => final_en en r
+    | SWith _ _ :: r => final_en en r
     | SSetEn e :: r => final_en e r
+    | SWrap _ :: r => final_en en r
     end.
 
   (* the message the property prescribes; [None] = no message satisfies it *)
@@ -383,7 +512,7 @@ Arguments Build_entry {F}.
 Arguments c_fam {V}. Arguments c_lvl {V}. Arguments c_text {V}. Arguments c_args {V}.
 Arguments c_sprint {V}. Arguments c_sprintf {V}. Arguments c_sprintln {V}.
 Arguments Build_call {V}.
-Arguments SWith {V}. Arguments SSetEn {V}.
+Arguments SWith {V}. Arguments SSetEn {V}. Arguments SWrap {V}.
 Arguments sugar_gate {F}. Arguments set_en {F}.
 Arguments call_context {V}.
 Arguments spec_diag_entries {F}.
@@ -407,6 +536,10 @@ Arguments base_error {F}. Arguments diag_entries {F}. Arguments terminal {F}.
             | (1 min)       a plain zapcore.Level used as the enabler: l >= min (min may be below Debug)
             | (2 min)       a zap.AtomicLevel currently at min: l >= min
    step   s = (0 lazy (v ...))   With / WithLazy
+            | (2 w)              WithOptions(zap.WrapCore(w)): a wrapping core is put on top of the logger's core
+                                 w = 0 self-registering forwarder (Check adds itself, Write forwards) | 1 embedding
+                                 wrapper (Check delegated) | 2 NewTee(core, nop) | 3 RegisterHooks | 4 NewIncreaseLevelCore
+                                 (core, the core's own enabler) | 5 NewTee(nop, core)
             | (1 e)              the core's enabler becomes e (AtomicLevel.SetLevel / the state read by the
                                  LevelEnablerFunc changes) -- seen by every logger derived so far
    case   i = (e dev (s ...) (fam lvl text (v ...) sprint sprintf sprintln generic))
@@ -437,6 +570,7 @@ Definition w_sweeten := sweeten sx sx w_as_field w_is_error w_as_string w_any w_
 Definition w_run := run sx sx w_as_field w_is_error w_as_string w_any w_named_error w_array_invalid.
 Definition w_spec_sweeten := spec_sweeten sx sx w_as_field w_is_error w_as_string w_any w_named_error w_array_invalid.
 Definition w_spec_withs := spec_withs sx sx w_as_field w_is_error w_as_string w_any w_named_error w_array_invalid.
+Definition w_ksteps_of := ksteps_of sx sx w_as_field w_is_error w_as_string w_any w_named_error.
 
 (* the enabler predicate: membership for a LevelEnablerFunc given by its extension,
    zapcore.Level.Enabled (l >= min) for a plain Level and for an AtomicLevel *)
@@ -446,8 +580,12 @@ Definition dec_en (s : sx) (l : Z) : bool :=
   else (sx_z (sx_nth s 1) <=? l)%Z.
 Definition dec_logger (i : sx) : logger sx :=
   {| lg_ctx := []; lg_en := dec_en (sx_nth i 0); lg_dev := sx_bool (sx_nth i 1) |}.
+Definition dec_wrapper (z : Z) : wrapper :=
+  match z with 0%Z => WFwd | 1%Z => WDeleg | 3%Z => WHook | 4%Z => WFilter | _ => WTee end.
 Definition dec_step (w : sx) : step sx :=
-  if (sx_z (sx_nth w 0) =? 0)%Z then SWith (sx_l (sx_nth w 2)) else SSetEn (dec_en (sx_nth w 1)).
+  if (sx_z (sx_nth w 0) =? 0)%Z then SWith (sx_bool (sx_nth w 1)) (sx_l (sx_nth w 2))
+  else if (sx_z (sx_nth w 0) =? 1)%Z then SSetEn (dec_en (sx_nth w 1))
+  else SWrap (dec_wrapper (sx_z (sx_nth w 1))).
 Definition dec_withs (i : sx) : list (step sx) := map dec_step (sx_l (sx_nth i 2)).
 Definition dec_fam (z : Z) : family :=
   match z with 0%Z => FamW | 1%Z => FamPrint | 2%Z => FamF | _ => FamLn end.
